@@ -70,8 +70,8 @@ Section Gcv.
     let n := length s in
     if Nat.even n then (nth (n / 2 - 1) s (f0 O) + nth (n / 2) s (f0 O)) / fofZ O 2 else nth (n / 2) s (f0 O).
 
-  (** one robust reweighting (after the fix: commits: scale over the cells that still carry weight, skipped when the MAD is not above 1e-9 of the data magnitude) *)
-  Definition robust_update (de : list F) (n s : F) (wt y ytemp rw : list F) : list F :=
+  (** one robust reweighting (after the fix: commits: scale over the cells that still carry weight, skipped when the MAD is not above 1e-9 of the data magnitude or when fewer than two cells would keep a weight) *)
+  Definition robust_update (de : list F) (n s : F) (w wt y ytemp rw : list F) : list F :=
     let r_arr := map2 (fsub O) y ytemp in
     let sel := map snd (filter (fun t => negb (feqb O (fst t) (f0 O))) (combine wt r_arr)) in
     let med := median sel in
@@ -81,12 +81,14 @@ Section Gcv.
     let floor_ := c_1em9 K * (if fltb O (f1 O) amax then amax else f1 O) in
     if fltb O floor_ mad then
       let scale := (c_14826 K * mad) * fsqrt O (f1 O - fsum O (gamma de s wt) / n) in
-      map (fun r =>
+      let new_w := map (fun r =>
              let u := r / scale in
              let q := u / c_4685 K in
              if fltb O (f0 O) r then f1 O
              else if fltb O (f1 O) (fabs O q) then f0 O
-             else sq O (f1 O - sq O q)) r_arr
+             else sq O (f1 O - sq O q)) r_arr in
+      (* if np.count_nonzero(w * new_weights) >= 2: r_weights = new_weights *)
+      if Nat.leb 2 (length (filter (fun v => negb (feqb O v (f0 O))) (map2 (fmul O) w new_w))) then new_w else rw
     else rw.
 
   (** the robust iterations; state = (best score, best lambda, y_temp), r_weights, history of best lambdas *)
@@ -99,7 +101,7 @@ Section Gcv.
         let wt := map2 (fmul O) w rw in
         let best' := gcv_scan de wt y lams best in
         let s := snd (fst best') in
-        let rw' := if robust then robust_update de n s wt y (snd best') rw else rw in
+        let rw' := if robust then robust_update de n s w wt y (snd best') rw else rw in
         robust_loop r robust de n w y grid best' rw' (hist ++ [s])
     end.
 
